@@ -21,6 +21,13 @@ func (o *objectGoMapReflect) init() {
 	o.valueType = o.fieldsValue.Type().Elem()
 }
 
+func (o *objectGoMapReflect) equal(other objectImpl) bool {
+	if other, ok := other.(*objectGoMapReflect); ok {
+		return o.equalValue(&other.objectGoReflect)
+	}
+	return false
+}
+
 // toKey converts an integer property index into a map key. Only a key whose property name
 // (see keyToString) is that very integer is valid, so indices outside the key type's range
 // do not wrap around to some other entry.
